@@ -69,9 +69,9 @@ fn alloc_reset() -> usize {
 // ---------------------------------------------------------------------------------------
 // targets and configurations
 
-const NATIVE_TARGETS: [&str; 16] = [
+const NATIVE_TARGETS: [&str; 20] = [
     "u8", "String", "Nat", "Int", "u128", "Vec<u8>", "Vec<Nat>", "Vec<unit>", "Option<Option<u8>>", "BTreeMap<String,Nat>", "BTreeMap<u8,Int>", "S5", "E1",
-    "Tree", "MA", "Principal",
+    "Tree", "MA", "Principal", "Vec<u16>", "Vec<i32>", "Vec<u64>", "Vec<f64>",
 ];
 
 #[derive(Clone, Copy, Debug)]
@@ -224,6 +224,39 @@ fn hostile_messages(tier: Tier) -> Vec<(String, Vec<u8>)> {
         out.push((format!("variant-index={tag}"), didl(&[&[0x01, 0x6b, 0x01, 0x00, 0x7f, 0x01, 0x00][..], &c[..]].concat())));
         out.push((format!("future-value-length={tag}"), didl(&[&[0x01, 0x67, 0x00, 0x01, 0x00][..], &c[..], &[0x00]].concat())));
         out.push((format!("nat-value={tag}"), didl(&[&[0x00, 0x01, 0x7d][..], &c[..]].concat())));
+    }
+    // fixed-width element vectors whose byte size (count x width) lands in the last few bytes below 2^64 / 2^63
+    // (where `pos + count*width` and `count*width` wrap), with and without some payload present
+    let mut edge: Vec<u128> = vec![];
+    for base in [1u128 << 64, 1u128 << 63] {
+        for w in [1u128, 2, 4, 8] {
+            for j in 0..=24u128 {
+                edge.push((base - j) / w);
+                edge.push((base - j + w - 1) / w);
+            }
+        }
+    }
+    edge.sort();
+    edge.dedup();
+    for (name, code, w) in [
+        ("nat8", 0x7bu8, 1u128), ("nat16", 0x7a, 2), ("nat32", 0x79, 4), ("nat64", 0x78, 8), ("int8", 0x77, 1), ("int16", 0x76, 2), ("int32", 0x75, 4),
+        ("int64", 0x74, 8), ("float32", 0x73, 4), ("float64", 0x72, 8), ("bool", 0x7e, 1),
+    ] {
+        for c in &edge {
+            // only counts whose byte size is within 32 bytes of a power-of-two boundary for this width
+            let bytes = c * w;
+            let near = |b: u128| bytes + 32 >= b && bytes <= b + 8;
+            if !(near(1 << 64) || near(1 << 63)) {
+                continue;
+            }
+            let cb = leb_big(*c);
+            for pay in [0usize, 16] {
+                out.push((format!("edge:vec-{name} count={c} payload={pay}"), didl(&[&[0x01, 0x6d, code, 0x01, 0x00][..], &cb[..], &vec![0x01u8; pay][..]].concat())));
+            }
+            if name == "nat8" {
+                out.push((format!("edge:text length={c}"), didl(&[&[0x00, 0x01, 0x71][..], &cb[..], b"abcdefgh"].concat())));
+            }
+        }
     }
     // zero-sized element bombs with explicit counts (quota decides how far the decoder goes)
     for n in [1_000u64, 1_000_000, (1 << 32) - 1] {
@@ -509,8 +542,20 @@ struct WorkerResult {
     status: String,
 }
 
+/// user + system CPU seconds consumed so far by process `pid` (Linux /proc; 100 ticks per second)
+fn child_cpu_seconds(pid: u32) -> f64 {
+    let Ok(stat) = std::fs::read_to_string(format!("/proc/{pid}/stat")) else { return 0.0 };
+    // fields after the parenthesised command name
+    let Some(rest) = stat.rsplit(')').next() else { return 0.0 };
+    let f: Vec<&str> = rest.split_whitespace().collect();
+    let ticks = |i: usize| f.get(i).and_then(|x| x.parse::<u64>().ok()).unwrap_or(0);
+    // rest starts at field 3 (state): utime is field 14, stime field 15
+    (ticks(11) + ticks(12)) as f64 / 100.0
+}
+
 fn spawn_worker(exe: &std::path::Path, tier: Tier, fi: usize, share: u64, nshares: u64, stack_kib: usize, skip_until: u64, only: Option<u64>, watchdog_s: u64) -> WorkerResult {
-    let progress = format!("/verif/mc/target/c06-progress-{}-{fi}-{share}-{stack_kib}-{}", std::process::id(), exe.to_string_lossy().contains("release"));
+    let _ = std::fs::create_dir_all(format!("{}/mc/target", mclib::engine::verif_dir()));
+    let progress = format!("{}/mc/target/c06-progress-{}-{fi}-{share}-{stack_kib}-{}", mclib::engine::verif_dir(), std::process::id(), exe.to_string_lossy().contains("release"));
     let mut cmd = std::process::Command::new(exe);
     cmd.args(["C06", "--worker", tier.name(), &fi.to_string(), &share.to_string(), &nshares.to_string(), &stack_kib.to_string(), &progress, &skip_until.to_string()]);
     if let Some(o) = only {
@@ -521,6 +566,7 @@ fn spawn_worker(exe: &std::path::Path, tier: Tier, fi: usize, share: u64, nshare
     let start = std::time::Instant::now();
     let mut last_progress = String::new();
     let mut last_change = std::time::Instant::now();
+    let mut cpu_at_change = 0.0f64;
     let status = loop {
         match child.try_wait() {
             Ok(Some(st)) => break format!("{st}"),
@@ -529,10 +575,14 @@ fn spawn_worker(exe: &std::path::Path, tier: Tier, fi: usize, share: u64, nshare
         }
         std::thread::sleep(std::time::Duration::from_millis(50));
         let p = std::fs::read_to_string(&progress).unwrap_or_default();
+        // the watchdog counts the worker's own CPU time (independent of machine load); a worker
+        // that neither advances nor burns CPU is stopped after 30 x that much wall time
+        let cpu = child_cpu_seconds(child.id());
         if p != last_progress {
             last_progress = p;
             last_change = std::time::Instant::now();
-        } else if last_change.elapsed().as_secs() > watchdog_s && start.elapsed().as_secs() > watchdog_s {
+            cpu_at_change = cpu;
+        } else if start.elapsed().as_secs() > watchdog_s && ((cpu - cpu_at_change) > watchdog_s as f64 || last_change.elapsed().as_secs() > 30 * watchdog_s) {
             let _ = child.kill();
             let _ = child.wait();
             break "watchdog: no progress".to_string();
@@ -677,7 +727,7 @@ pub fn run(tier: Tier, replay: Option<&str>, rest: &[String]) -> i32 {
     finish(
         &ctx,
         rep,
-        "inputs: all byte strings DIDL+s with |s|<=2 (thorough 3) over all 256 bytes and |s|<=4 (thorough 5) over a 24-byte alphabet of opcodes/counts/flags; every 1-byte deviation of valid messages of a small scope; hostile families (huge and over-long LEB128 counts at every count position of header and values, zero-sized element bombs up to 2^32-1 elements, recursive tables without progress, nesting depth 1..20000 of opt/vec chains in the table and of recursive values) on 256 KiB / 1 MiB / 8 MiB stacks; each input x 16 native targets + 4 untyped targets x 8-10 decoder configurations (quotas none/0/1/10/100/10000, skipping quota, full_error_message, max_type_len), in checked and release builds. Oracle: every call returns Ok or Err (a panic or a dead worker process is a violation, bisected to the input); under a decoding quota q peak allocation <= 4 MiB + 64*|input| + 64*q (counting global allocator); no progress for 20 s is non-termination; checked and release agree on the outcome digest. Non-trivial = calls that returned Ok.",
+        "inputs: all byte strings DIDL+s with |s|<=2 (thorough 3) over all 256 bytes and |s|<=4 (thorough 5) over a 24-byte alphabet of opcodes/counts/flags; every 1-byte deviation of valid messages of a small scope; hostile families (huge and over-long LEB128 counts at every count position of header and values, zero-sized element bombs up to 2^32-1 elements, vectors of every fixed-width element type and texts whose byte size count x width lies within 32 bytes of 2^63 and 2^64, recursive tables without progress, nesting depth 1..20000 of opt/vec chains in the table and of recursive values) on 256 KiB / 1 MiB / 8 MiB stacks; each input x 20 native targets (incl. Vec of 2-, 4- and 8-byte numbers) + 4 untyped targets x 8-10 decoder configurations (quotas none/0/1/10/100/10000, skipping quota, full_error_message, max_type_len), in checked and release builds. Oracle: every call returns Ok or Err (a panic or a dead worker process is a violation, bisected to the input); under a decoding quota q peak allocation <= 4 MiB + 64*|input| + 64*q (counting global allocator); no progress while the worker consumes 20 s of CPU time is non-termination; checked and release agree on the outcome digest. Non-trivial = calls that returned Ok.",
         &["work proportional to the quota is decided through allocation and termination, not timing", "unmetered runs of explicit element bombs are restricted to 1000 elements"],
         json!({}),
     )
